@@ -423,6 +423,129 @@ int main(int argc, char **argv) {
       if ((seg3[0].V() - V).norm() > 1e-13 * (double)vscale || fabsl((LD)eF2 - (LD)eF) > 2e-13L * scale)
         R.violation("field/polar-source-differs", "static field of a PolarSegment source differs from that of the same static moments", W().vec("V_static_source", std::vector<double>{V.x(), V.y(), V.z()}).vec("V_polar_source", std::vector<double>{seg3[0].V().x(), seg3[0].V().y(), seg3[0].V().z()}));
     }
+    // (v-b) induced field: ApplyInducedField accumulates on every target site sum_a T(a,b)^T mu_ind(a) (T the Thole
+    // tensor), i.e. the derivative of the induced-induced pair energy w.r.t. the target's induced dipole; permanent
+    // moments (already applied by ApplyStaticField) must not enter, so it is exactly zero without induced dipoles
+    if (it % 2 == 0) {
+      double adamp = r.coin(0.4) ? 0.39 : r.logu(0.01, 10.0);
+      eeInteractor eei(adamp);
+      double sepi = r.logu(2.5, 40.0);
+      double spread = std::min(1.0, sepi / 6);
+      Eigen::Vector3d di = rand_dir(r);
+      PolarSegment s1("src", 0), s2("tgt", 1);
+      std::vector<Spec> sp1, sp2;
+      auto fill = [&](PolarSegment &seg, std::vector<Spec> &sp, const Eigen::Vector3d &centre, bool induced) {
+        long ns = r.range(1, 3);
+        for (long k = 0; k < ns; ++k) {
+          Spec q = gen_spec(r, (int)r.range(0, 2), false, centre + spread * Eigen::Vector3d(r.uni(-1, 1), r.uni(-1, 1), r.uni(-1, 1)));
+          PolarSite ps = make_polar(q, k);
+          if (r.coin(0.7)) {
+            Eigen::Vector3d ev(r.logu(0.5, 50.0), r.logu(0.5, 50.0), r.logu(0.5, 50.0));
+            if (r.coin(0.4)) ev = Eigen::Vector3d::Constant(ev[0]);
+            Eigen::Matrix3d U = to_eigen(rand_rotation(r));
+            Eigen::Matrix3d al = U * ev.asDiagonal() * U.transpose();
+            ps.setpolarization(0.5 * (al + al.transpose().eval()));
+          }
+          if (induced) ps.setInduced_Dipole(rand_dir(r) * r.logu(1e-3, 10.0));
+          seg.push_back(ps);
+          sp.push_back(q);
+        }
+      };
+      fill(s1, sp1, origin, true);
+      fill(s2, sp2, origin + sepi * di, true);
+      auto polvec = [](const PolarSite &ps) {
+        const Eigen::Matrix3d P = ps.getpolarization();  // returned by value: keep one copy
+        return std::vector<double>(P.data(), P.data() + 9);
+      };
+      auto IW = [&]() {
+        J w;
+        std::string ja = "[", jb = "[";
+        for (Index k = 0; k < s1.size(); ++k) ja += std::string(k ? "," : "") + J().raw("site", sjson(sp1[k])).vec("induced_dipole", std::vector<double>{s1[k].Induced_Dipole().x(), s1[k].Induced_Dipole().y(), s1[k].Induced_Dipole().z()}).vec("polarisation_colmajor", polvec(s1[k])).str();
+        for (Index k = 0; k < s2.size(); ++k) jb += std::string(k ? "," : "") + J().raw("site", sjson(sp2[k])).vec("induced_dipole", std::vector<double>{s2[k].Induced_Dipole().x(), s2[k].Induced_Dipole().y(), s2[k].Induced_Dipole().z()}).vec("polarisation_colmajor", polvec(s2[k])).str();
+        w.raw("source_segment", ja + "]").raw("target_segment", jb + "]").d("expdamping", adamp);
+        return w;
+      };
+      R.eval("induced_field");
+      for (int variant = 0; variant < 2; ++variant) {  // 0: Estatic::V, 1: Estatic::noE_V
+        PolarSegment t = s2;
+        double eret = variant ? eei.ApplyInducedField<Estatic::noE_V>(s1, t) : eei.ApplyInducedField<Estatic::V>(s1, t);
+        for (Index b = 0; b < t.size(); ++b) {
+          Eigen::Vector3d got = variant ? t[b].V_noE() : t[b].V();
+          Eigen::Vector3d other = variant ? t[b].V() : t[b].V_noE();
+          // expected from the real Thole tensor and the induced dipoles only
+          Eigen::Vector3d want = Eigen::Vector3d::Zero();
+          LD vsc = 0;
+          for (Index a = 0; a < s1.size(); ++a) {
+            want += eei.FillTholeInteraction(s1[a], s2[b]).transpose() * s1[a].Induced_Dipole();
+            LD rab = (LD)(s1[a].getPos() - s2[b].getPos()).norm();
+            vsc += (LD)s1[a].Induced_Dipole().norm() * 2.45L / (rab * rab * rab);
+          }
+          if ((got - want).norm() > 1e-12 * (double)vsc || other.norm() != 0)
+            R.violation("induced-field/not-thole-tensor-times-induced-dipoles", "field accumulated by ApplyInducedField differs from sum_a T(a,b)^T mu_induced(a)", IW().i("target_site", b).b("noE_V", variant == 1).vec("field", std::vector<double>{got.x(), got.y(), got.z()}).vec("expected", std::vector<double>{want.x(), want.y(), want.z()}).vec("other_field_slot", std::vector<double>{other.x(), other.y(), other.z()}));
+          // derivative of the induced-induced pair energy w.r.t. the target's induced dipole (linear: central difference is exact)
+          Eigen::Vector3d mu0 = s2[b].Induced_Dipole();
+          double hstep = std::max(1e-3, mu0.norm());
+          Eigen::Vector3d fd;
+          LD esc = 0;
+          for (int k = 0; k < 3; ++k) {
+            PolarSegment tp = s2, tm = s2;
+            Eigen::Vector3d mp = mu0, mm = mu0;
+            mp[k] += hstep; mm[k] -= hstep;
+            tp[b].setInduced_Dipole(mp);
+            tm[b].setInduced_Dipole(mm);
+            eeInteractor::E_terms ep = eei.CalcPolarEnergy(s1, tp), em = eei.CalcPolarEnergy(s1, tm);
+            fd[k] = (ep.E_indu_indu() - em.E_indu_indu()) / (mp[k] - mm[k]);
+            esc = std::max(esc, (LD)std::fabs(ep.E_indu_indu()) + (LD)std::fabs(em.E_indu_indu()));
+          }
+          LD mu_all = 0;
+          for (Index q = 0; q < s2.size(); ++q) mu_all += (LD)s2[q].Induced_Dipole().norm();
+          LD tolfd = 1e-12L * vsc + 32.0L * EPS * (vsc * (mu_all + hstep) + esc) / hstep;
+          if (variant == 0 && (got - fd).norm() > (double)tolfd)
+            R.violation("induced-field/not-derivative-of-pair-energy", "field accumulated by ApplyInducedField differs from d E_indu_indu / d mu_induced(target) (finite differences of CalcPolarEnergy)", IW().i("target_site", b).vec("field", std::vector<double>{got.x(), got.y(), got.z()}).vec("dE_dmu", std::vector<double>{fd.x(), fd.y(), fd.z()}).d("tolerance", (double)tolfd));
+        }
+        // returned energy (V variant): the source's induced dipoles in the static field of the target = sum mu_ind(a) . V_static(target -> a)
+        if (variant == 0) {
+          PolarSegment srcc = s1;
+          for (PolarSite &x : srcc) x.Reset();
+          eei.ApplyStaticField<PolarSegment, Estatic::V>(s2, srcc);
+          LD ewant = 0, escale = 0;
+          for (Index a = 0; a < srcc.size(); ++a) {
+            ewant += (LD)srcc[a].Induced_Dipole().dot(srcc[a].V());
+            escale += (LD)srcc[a].Induced_Dipole().norm() * (LD)srcc[a].V().norm();
+          }
+          if (fabsl((LD)eret - ewant) > 1e-12L * escale + 1e-300L)
+            R.violation("induced-field/returned-energy", "energy returned by ApplyInducedField<V> differs from sum_a mu_induced(a) . (static field of the target segment at a)", IW().d("returned", eret).d("expected", (double)ewant));
+          // CalcPolarEnergy.E_indu_stat is that energy in both directions
+          PolarSegment tb = s1;
+          double eback = eei.ApplyInducedField<Estatic::V>(s2, tb);
+          eeInteractor::E_terms et = eei.CalcPolarEnergy(s1, s2);
+          PolarSegment srcb = s2;
+          for (PolarSite &x : srcb) x.Reset();
+          eei.ApplyStaticField<PolarSegment, Estatic::V>(s1, srcb);
+          LD escale2 = escale;
+          for (Index a = 0; a < srcb.size(); ++a) escale2 += (LD)srcb[a].Induced_Dipole().norm() * (LD)srcb[a].V().norm();
+          if (fabsl((LD)et.E_indu_stat() - ((LD)eret + (LD)eback)) > 1e-12L * escale2 + 1e-300L)
+            R.violation("induced-field/indu-stat-energy-inconsistent", "CalcPolarEnergy(...).E_indu_stat differs from the two energies returned by ApplyInducedField<V>", IW().d("E_indu_stat", et.E_indu_stat()).d("forward", eret).d("backward", eback));
+        } else if (eret != 0.0) {
+          R.violation("induced-field/returned-energy", "ApplyInducedField<noE_V> must not return an energy", IW().d("returned", eret));
+        }
+      }
+      // no induced dipoles anywhere: exactly no induced field, although the permanent dipoles are there
+      {
+        PolarSegment z1 = s1, z2 = s2;
+        for (PolarSite &x : z1) x.setInduced_Dipole(Eigen::Vector3d::Zero());
+        for (PolarSite &x : z2) { x.setInduced_Dipole(Eigen::Vector3d::Zero()); x.Reset(); }
+        bool perm = false;
+        for (const Spec &q : sp1) if (q.rank >= 1 && q.Q.segment<3>(1).norm() > 0) perm = true;
+        eei.ApplyInducedField<Estatic::V>(z1, z2);
+        eei.ApplyInducedField<Estatic::noE_V>(z1, z2);
+        R.eval("induced_field_without_induced_dipoles");
+        if (perm) R.counter("induced_field_zero_cases_with_permanent_source_dipole");
+        for (Index b = 0; b < z2.size(); ++b)
+          if (z2[b].V().norm() != 0 || z2[b].V_noE().norm() != 0)
+            R.violation("induced-field/nonzero-without-induced-dipoles", "ApplyInducedField accumulates a field although all induced dipoles are zero", IW().i("target_site", b).vec("V", std::vector<double>{z2[b].V().x(), z2[b].V().y(), z2[b].V().z()}).vec("V_noE", std::vector<double>{z2[b].V_noE().x(), z2[b].V_noE().y(), z2[b].V_noE().z()}));
+      }
+    }
     // segment level: sum over site pairs, all four template instantiations, exchange of the segments
     if (it % 5 == 0) {
       long na = r.range(1, 4), nb = r.range(1, 4);
